@@ -151,8 +151,28 @@ class Monitor:
             self._err(7, "payload_after_hasNext_false")
         self.n_payloads += 1
         self._announce(payload.get("pending") or ())
-        for inc in payload.get("incremental") or ():
+        entries = list(payload.get("incremental") or ())
+        postponed = []
+        while entries or postponed:
+            if not entries:
+                # second chance for entries whose target another entry of this payload created
+                entries, postponed = postponed, None
+            inc = entries.pop(0)
             i = inc["id"]
+            if postponed is not None and "items" not in inc and i in self.pending:
+                base_ = list(self.pending[i]["path"]) + list(inc.get("subPath") or ())
+                ok_, target_ = _walk(self.data, base_)
+                if not ok_ or not isinstance(target_, dict):
+                    postponed.append(inc)
+                    continue
+            elif postponed is None and "items" not in inc and i in self.pending:
+                base_ = list(self.pending[i]["path"]) + list(inc.get("subPath") or ())
+                ok_, target_ = _walk(self.data, base_)
+                if ok_ and isinstance(target_, dict):
+                    self._err(3, "defer_target_created_later_in_same_payload",
+                              {"id": i, "path": base_})
+            if postponed is None and not entries:
+                postponed = []
             pe = self.pending.get(i)
             if pe is None:
                 what = ("incremental_for_completed_id" if i in self.done
